@@ -1,14 +1,15 @@
 (** C15  Reported error locations point into the form that failed.
     Property theorems only: how locations are produced (lexer) and handed on (expander, eval_ast),
     and where the locations of evaluator errors come from ([C15_error_location_has_a_source]: only from
-    the expression evaluated and from procedure bodies that exist in the store). That the locations
-    written in a form lie inside the form's extent in the text is the reader's part, checked by the
-    correspondence (fault programs under random layouts, extents known from the renderer).
+    the expression evaluated and from procedure bodies that exist in the store), and the chain from the text
+    to the reported location: lexer cursor, reader extent, transformer and macro expander, evaluator
+    ([C15_located_error_points_into_the_form_or_a_stored_procedure]).
     Convention of the code: a location is the cursor
     position after the token; [pos_le] orders positions by line, then column. *)
 From Coq Require Import NArith List Bool.
 From RV Require Import Model.Common Model.Datum Model.Lexer Model.Macro Model.Ast Model.Value Model.Eval Model.Interp
-  Spec.EvalSpec Proofs.LexProofs Proofs.LocProofs Proofs.LocInvProofs.
+  Model.Reader Model.Transform Spec.EvalSpec Proofs.LexProofs Proofs.LocProofs Proofs.LocInvProofs Proofs.ExtentProofs
+  Proofs.TransformLoc Proofs.FormLoc.
 Import ListNotations.
 
 (** the cursor only moves forward, through tokens as well as through layout *)
@@ -64,3 +65,35 @@ Proof. exact closures_keep_their_locations. Qed.
 Theorem C15_native_errors_are_unlocated : forall name args st k l st',
   Model.Builtins.builtin_call name args st = (Err k l, st') -> l = None.
 Proof. exact native_errors_are_unlocated. Qed.
+
+(** ** from the text to the reported location *)
+
+(** the lexer's cursor only moves forward, through every token class, and a token's location is the cursor
+    position just after it *)
+Theorem C15_lexer_cursor_moves_forward : forall fuel l p o r p',
+  lex_next fuel l p = Ok (o, r, p') -> pos_le p p' /\ forall t tp, o = Some (t, tp) -> tp = p'.
+Proof. exact lex_next_forward. Qed.
+
+(** a form read from the text with the cursor at [lpos s] carries at every node - at any depth, in lists, dotted
+    tails, vectors and quotations - no location or one between that position and the cursor after the form *)
+Theorem C15_locations_of_a_form_lie_in_its_text : forall s d s',
+  read_next s = Ok (Some d, s') -> pos_le (lpos s) (lpos s') /\ din (between (lpos s) (lpos s')) d.
+Proof. exact locations_of_a_form_lie_in_its_text. Qed.
+
+(** the transformer, through any number of macro expansions (the expansion is built from parts of the use and
+    unlocated template nodes and takes the use's location), writes into the statement only locations of the form *)
+Theorem C15_transform_locations_come_from_the_form : forall (P : loc -> Prop), P None ->
+  forall fuel d e s e', transform_stmt fuel d e = (Ok s, e') -> din P d -> sin P s.
+Proof. exact transform_locations_come_from_the_form. Qed.
+
+(** the chain: a located error of evaluating a form read from the text points into the form's own text - between the
+    cursor before and after reading it - unless it is the location of a procedure body that an earlier form or a
+    library put into the store ([Lst]; known finding F7 is about those) *)
+Theorem C15_located_error_points_into_the_form_or_a_stored_procedure :
+  forall s d s' tf senv e senv' fuel env st k l st' (Lst : loc -> Prop),
+  read_next s = Ok (Some d, s') ->
+  transform_stmt tf d senv = (Ok (SExpr e), senv') ->
+  eval_expr fuel e env st = (Err k l, st') ->
+  slok (fun x => between (lpos s) (lpos s') x \/ Lst x) st ->
+  between (lpos s) (lpos s') l \/ Lst l.
+Proof. exact located_error_points_into_the_form_or_a_stored_procedure. Qed.
